@@ -662,18 +662,18 @@ def c43(ctx):
                 "the school arithmetic of module BigInt (contracts for roots, Bezout coefficients and inverses; "
                 "Lucas certificates and factorisations for large primes and composites) and then that the three "
                 "results are identical; the number-theory, exact-arithmetic and polynomial workloads of C32, C05, "
-                "C21, C22, C23 and C03 are replayed and validated the same way on every back end")
+                "C21 and C23 are replayed and validated the same way on every back end")
     ctx.model_check("MC_BigInt", cfg="MC_BigInt.cfg", workers=1, env={"OUT": "/dev/null"})
     cases = ctx.gen("MC_C43")
     across_backends(ctx, cases, "Trace_C43", 0.9)
     reuse = [("MC_C32", "Trace_C32", 0.9), ("MC_Num", "Trace_C05", 0.5)]
     if ctx.thorough:
-        reuse += [("MC_C21", "Trace_C21", 0.5), ("MC_C22", "Trace_C22", 0.5), ("MC_C23", "Trace_C23", 0.9), ("MC_C03", "Trace_Val", 0.5)]
+        reuse += [("MC_C21", "Trace_C21", 0.5), ("MC_C23", "Trace_C23", 0.9)]
     for mc, tr, fl in reuse:
         cs = ctx.gen(mc)
         # (the GMP build's trace of these workloads is validated in full by the property the workload belongs to;
         #  the quick tier validates every 8th event of the other back ends and compares all of them)
-        across_backends(ctx, cs, tr, fl, every=1 if ctx.thorough else 8, skip_spec=() if ctx.thorough else ("base",),
+        across_backends(ctx, cs, tr, fl, every=2 if ctx.thorough else 8, skip_spec=("base",),
                         shards=5, any_valid=("factor_rho", "factor_pm1"))
 
 
